@@ -27,6 +27,10 @@ def dfact(n):
 
 TECHNIQUE += '; threshold-directed sampling of every comparison against a constant (both sides next to the threshold); ternaries in the special-value domain'
 
+EXPLANATION += ' R20.13 also: the arithmetic of element i of sqrt_neg(array) uses nothing of the other elements (a scale taken over the whole array cancels over the reals only).'
+
+TECHNIQUE += '; atom-support analysis of the elements of array results (comparisons excluded)'
+
 def run(chk):
     repo = Repo(chk.repo)
     ms = repo.by_path('TidalPy/utilities/math/special_x.pyx')
